@@ -1,5 +1,6 @@
 SPECIFICATION Spec
 CONSTANT MaxN = 4
+CONSTANT Small = FALSE
 CONSTANT Rich = FALSE
 INVARIANT TypeOK
 INVARIANT UAFNeedsDelete
